@@ -34,6 +34,15 @@ def r_C06bcd(root):
             if not inside:
                 okb = False
                 out.append(Finding("C06", "C06.b", M, "_end_model_construction", " ".join(ast.unparse(sup).split())[:100], "the first attribute that cannot be set aborts the copy of all remaining attributes: _tx_position/_tx_position_end and later attributes never reach the instance (the class-level values, i.e. the rule's position in the grammar, show through)", witness="user class with a read-only @property for a grammar attribute"))
+        # ... and every collected attribute is applied: inside the loop the setattr depends on no condition
+        if loop is not None:
+            fie = sem.info(ef)
+            conds = [(g, pol) for g, pol in fie.guards(c) if any(a is loop for a in ancestors(g))]
+            if conds:
+                okb = False
+                g0, p0_ = conds[0]
+                for pr in ("C06", "C33", "C34"):
+                    out.append(Finding(pr, "C06.b", M, "_end_model_construction", " ".join(ast.unparse(c).split()) + " under " + ("" if p0_ else "not ") + " ".join(ast.unparse(g0).split())[:60], "a collected attribute is applied to the instance only under a condition: values that shadow a class-level attribute (_tx_position, _tx_position_end, _tx_filename hold the grammar rule's position on the class) never reach the instance"))
         ob("C06", "C06.b", M, "_end_model_construction", "per-attribute suppression around " + ast.unparse(c), okb)
     # ---- C06.c  the text the parser sees is the caller's string / the file's content, character for character
     def _text_flow(rel, q, callee, recv_ok=lambda c: True):
